@@ -15,7 +15,7 @@ open Iso C06I
 /-- **Every mapping the common-subgraph search yields** (transcription, ANY constraints list, any
 rule for the next node) maps a subset of the pattern nodes (each once) by an induced
 colour-respecting subgraph isomorphism, and obeys the constraints as far as `_map_nodes` enforces them. -/
-theorem ismags_lcs_sound {pick : Cands → List Int → Int} (hpick : PickOK pick) (g sg : Graph) (C : Constraints)
+theorem ismags_lcs_sound {pick : Map → Cands → List Int → Int} (hpick : PickOK pick) (g sg : Graph) (C : Constraints)
     (hs : sg.keys.Nodup) (m : Map) (h : m ∈ largestCommonSubgraphWith pick g sg C) :
     (m.map Prod.fst).Nodup
     ∧ (∃ nodes : List Int, nodes.Sublist sg.keys ∧ ∀ u, u ∈ nodes ↔ u ∈ m.map Prod.fst)
@@ -38,7 +38,7 @@ theorem ismags_lcs_sound {pick : Cands → List Int → Int} (hpick : PickOK pic
   exact ⟨h2, h3, mapOK_indIso h2 h1, mapOK_enforced h2 h1⟩
 
 /-- **All yielded mappings have the same number of nodes** (any constraints). -/
-theorem ismags_lcs_equal_size {pick : Cands → List Int → Int} (hpick : PickOK pick) (g sg : Graph) (C : Constraints)
+theorem ismags_lcs_equal_size {pick : Map → Cands → List Int → Int} (hpick : PickOK pick) (g sg : Graph) (C : Constraints)
     (hs : sg.keys.Nodup) (m m' : Map) (h : m ∈ largestCommonSubgraphWith pick g sg C)
     (h' : m' ∈ largestCommonSubgraphWith pick g sg C) : m.length = m'.length := by
   unfold largestCommonSubgraphWith at h h'
@@ -72,7 +72,7 @@ pattern nodes, are a permutation of the verified reference `allMCIS` - i.e. only
 subgraphs, all of the maximum size `mcisSize`, every maximum one, each exactly once; when nothing is
 in common (`mcisSize = 0`, non-empty pattern) nothing is yielded; for the empty pattern the empty
 mapping is yielded. -/
-theorem ismags_lcs_exact {pick : Cands → List Int → Int} (hpick : PickOK pick) (g sg : Graph)
+theorem ismags_lcs_exact {pick : Map → Cands → List Int → Int} (hpick : PickOK pick) (g sg : Graph)
     (hs : sg.keys.Nodup) (hg : g.keys.Nodup) :
     ((1 ≤ mcisSize g sg ∨ sg.keys = []) →
         ((largestCommonSubgraphWith pick g sg []).map (canonP sg)).Perm (allMCIS g sg))
@@ -119,7 +119,7 @@ theorem ismags_lcs_exact {pick : Cands → List Int → Int} (hpick : PickOK pic
 
 /-- consequences in the words of the property (no constraints): every yielded mapping is a common
 induced subgraph of the maximum possible size, and every maximum one is yielded. -/
-theorem ismags_lcs_max_complete {pick : Cands → List Int → Int} (hpick : PickOK pick) (g sg : Graph)
+theorem ismags_lcs_max_complete {pick : Map → Cands → List Int → Int} (hpick : PickOK pick) (g sg : Graph)
     (hs : sg.keys.Nodup) (hg : g.keys.Nodup) (hk : 1 ≤ mcisSize g sg) :
     (∀ m ∈ largestCommonSubgraphWith pick g sg [], m.length = mcisSize g sg
         ∧ ∀ (S : List Int) (f : Int → Int), S.Sublist sg.keys → IsIndIsoOn g sg (colourPred g sg) S f → S.length ≤ m.length)
